@@ -1,8 +1,8 @@
 ---- MODULE MC_ObserveGossip ----
 EXTENDS ObserveGossip
-MC_Node == {"n1", "n2", "n3", "n4", "n5", "n1~1"}
+MC_Node == {"n1", "n2", "n3", "n4", "n5", "n1~1", "n2~1"}
 MC_Cluster == [n \in Node |-> "c"]
 MC_ClusterSplit == [n \in Node |-> IF n = "n3" THEN "C" ELSE "c"]
 MC_Cluster5 == [n \in Node |-> CASE n = "n3" -> "C" [] n = "n4" -> "cc" [] n = "n5" -> "" [] OTHER -> "c"]
-MC_Addr == [n \in Node |-> IF n = "n1~1" THEN "n1" ELSE n]
+MC_Addr == [n \in Node |-> IF n = "n1~1" THEN "n1" ELSE IF n = "n2~1" THEN "n2" ELSE n]
 ====
